@@ -163,6 +163,7 @@ func runC03(c *Ctx) {
 	c.obWriters("Conn.helo", "set by the greeting, cleared when session creation fails and by the TLS upgrade", "(*Conn).handleGreet", "(*Conn).handleStartTLS")
 	c.obWriters("Conn.binarymime", "decided by each MAIL command (reset() may clear it as well)", "(*Conn).handleMail", "(*Conn).reset")
 	ruleBinarymimePerMail(c)
+	rulePositiveAfterCallback(c)
 
 	R.Rule("R-reset-at-end", "E2 must-pass-through", "every transaction end passes through reset() (or Close after a backend panic) before the handler returns", 6)
 	obMessageEndResets(c)
@@ -313,4 +314,34 @@ func ruleBinarymimePerMail(c *Ctx) {
 	for _, st := range s.Find(f, "st:Conn.binarymime=true") {
 		R.Ob(c.siteKey(st, "binarymime set only for BODY=BINARYMIME"), c.P.InstrPos(st), true, "")
 	}
+}
+
+// rulePositiveAfterCallback (C03, C04, C16): MAIL and RCPT are answered positively only after the backend has been
+// asked about exactly this command: no shortcut (a cache, a de-duplication, a "nothing to do" path) can say 250 on
+// the backend's behalf, or the backend's view of the envelope differs from what the client was told.
+func rulePositiveAfterCallback(c *Ctx) {
+	R := c.R
+	_, s := c.Std()
+	R.Rule("R-positive-after-callback", "E2 must-precede", "every 2xx reply of handleMail/handleRcpt is preceded on all paths by the Session.Mail/Session.Rcpt call of this command", 2)
+	n := 0
+	for _, x := range []struct{ fn, cb string }{{"(*Conn).handleMail", lMail}, {"(*Conn).handleRcpt", lRcpt}} {
+		f := c.A.Func(x.fn)
+		if f == nil {
+			continue
+		}
+		for _, g := range c.withHelpers(f) {
+			allInstrs(g, func(in ssa.Instruction) {
+				_, code, isConst, ok := replyCall(in)
+				if !ok || !isConst || code < 200 || code > 299 {
+					return
+				}
+				if g != f {
+					return // helper replies are judged where they are called (none on this tree)
+				}
+				n++
+				R.Ob(c.siteKey(in, "positive reply only after the backend was asked"), c.P.InstrPos(in), s.SeenBefore(in)[x.cb], fmt.Sprintf("%s answers %d on a path that has not called %s: the client is told the command was accepted although the backend never saw it", x.fn, code, x.cb))
+			})
+		}
+	}
+	R.Ob("positive MAIL/RCPT replies/found", "-", n >= 2, fmt.Sprintf("%d sites", n))
 }
